@@ -233,7 +233,7 @@ def gen_callbacks(rng: random.Random, P: Profile, scn: Scn, evs):
     if rng.random() < P.p_model_shape:
         scn.model_shape = rng.choice(["len0", "boolF", "lib", "eq"])
     if used and rng.random() < P.p_listener_kind:
-        scn.listener_kind = rng.choice(["eq", "hooks", "falsy", "proxy", "inherit"])
+        scn.listener_kind = rng.choice(["eq", "hooks", "falsy", "proxy", "inherit", "shared"])
     real = [c for c in scn.cbs if c.coro and not c.alias_of and c.id not in {x.alias_of for x in scn.cbs}]
     if len(real) >= 2:
         for c in real[1:]:
